@@ -809,6 +809,39 @@ fn flood_tick(sock: dsim::SockId, bytes: std::rc::Rc<Vec<Vec<u8>>>, target: Sock
     });
 }
 
+#[derive(Clone)]
+struct StreamState {
+    first_sock: u32,
+    socks: u32,
+    ietf_permille: u32,
+    interval_ns: u64,
+    nonce_base: u64,
+    target: SocketAddr,
+    srv: std::rc::Rc<Vec<u8>>,
+    burst_max: u32,
+}
+
+fn stream_tick(st: StreamState, k: u32, count: u32) {
+    if k >= count {
+        return;
+    }
+    let group = (1 + dsim::rng::Rng::derive(st.nonce_base.wrapping_add(k as u64), "stream-group").below(st.burst_max as u64) as u32).min(count - k);
+    for j in k..k + group {
+        let nonce_seed = st.nonce_base.wrapping_add(j as u64);
+        let mut rng = dsim::rng::Rng::derive(nonce_seed, "stream");
+        let proto = if rng.below(1000) < st.ietf_permille as u64 { P::Ietf } else { P::Classic };
+        let bytes = reqs::build(&reqs::valid_variant(proto, nonce_seed), &st.srv);
+        let sock = ensure_client_sock(st.first_sock + j % st.socks);
+        dsim::with(|w| {
+            let _ = w.udp_send(sock, &bytes, st.target);
+        });
+    }
+    dsim::with(|w| {
+        let at = w.now + st.interval_ns * group as u64;
+        w.at(at, move || stream_tick(st, k + group, count));
+    });
+}
+
 // ------------------------------------------------------------------------------------------
 // run
 // ------------------------------------------------------------------------------------------
@@ -1017,6 +1050,15 @@ pub fn run(plan: &Plan, tape: dsim::Tape) -> RunOut {
                         let s = ensure_client_sock(sock);
                         let target = ctx(|c| c.server_addr).expect("server address");
                         flood_tick(s, bytes, target, interval_ns, count);
+                    })
+                });
+            }
+            Action::Stream { first_sock, socks, ietf_permille, interval_ns, count, nonce_base, burst_max } => {
+                dsim::with(|w| {
+                    w.at(at, move || {
+                        let target = ctx(|c| c.server_addr).expect("server address");
+                        let srv = std::rc::Rc::new(ctx(|c| c.srv.clone()));
+                        stream_tick(StreamState { first_sock, socks: socks.max(1), ietf_permille, interval_ns, nonce_base, target, srv, burst_max: burst_max.max(1) }, 0, count);
                     })
                 });
             }
